@@ -1098,6 +1098,11 @@ func c11Catalogue() []struct {
 		{"Unnamed2", []refmodel.Field{f("", A, true, "a"), f("", A, true, "b"), f("v", U, false, "v")}},
 		{"Unnamed2", []refmodel.Field{f("", A, true, ""), f("", A, true, "b"), f("v", U, false, "v")}},
 		{"Unnamed3", []refmodel.Field{f("", A, true, "a"), f("", A, true, ""), f("", A, true, "c")}},
+		// a struct member that carries the name of an indexed top-level input (legal Solidity, accepted by validation):
+		// names identify inputs only among their siblings; the member is read from the data, the input from its topic
+		{"OrderFilled", []refmodel.Field{f("maker", A, true, "m"), f("order", refmodel.TupleOf(refmodel.F("maker", A, "om"), refmodel.F("amount", U, "amt")), false, ""), f("fee", U, false, "fee")}},
+		{"OrderFilled", []refmodel.Field{f("maker", A, true, ""), f("order", refmodel.TupleOf(refmodel.F("maker", A, "om"), refmodel.F("amount", U, "amt")), false, ""), f("fee", U, false, "fee")}},
+		{"OrdersFilled", []refmodel.Field{f("taker", A, true, "tk"), f("maker", A, true, "m"), f("orders", refmodel.ArrayOf(refmodel.TupleOf(refmodel.F("maker", A, "om"), refmodel.F("taker", A, ""))), false, ""), f("fee", U, false, "fee")}},
 	}
 }
 
